@@ -63,6 +63,7 @@ func New(cfg config.Storage, extHost *extension.Host) (storage.Store, error) {
 	mailPath := getMailPath(path)
 	if _, err := os.Stat(mailPath); err != nil {
 		// Mail datastore does not yet exist, create it.
+		verifhook.Point("file.new.mkdir", mailPath)
 		if err = os.MkdirAll(mailPath, 0770); err != nil {
 			log.Error().Str("module", "storage").Str("path", mailPath).Err(err).
 				Msg("Error creating dir")
